@@ -28,6 +28,8 @@ def strata(tier):
          'tasks': combprop.enum_tasks(L, W, bits), 'run_task': _run_task},
         {'name': 'every_width_edge_operands', 'kind': 'enum', 'exhaustive': False,
          'tasks': combprop.width_tasks(L, combprop.QUICK_WIDTHS if tier == 'quick' else range(1, 141)), 'run_task': combprop.make_width_task(L)},
+        {'name': 'one_wire_on_two_ports', 'kind': 'hyp', 'examples': n // 4,
+         'strategy': lambda: combprop.alias_strategy(L), 'run_case': run_case},
         {'name': 'hypothesis_wide', 'kind': 'hyp', 'examples': n,
          'strategy': lambda: combprop.case_strategy(L), 'run_case': run_case},
     ]
